@@ -117,12 +117,13 @@ def _match_one(method, term, tkind, tval, kind, val, original):
         if kind == "bool" or tkind == "bool":
             if kind == "bool" and tkind == "bool":
                 return val == tval
-            if kind in ("int", "float") or tkind in ("int", "float"):
-                raise Unspecified("boolean against a number")
-            # boolean against text: compare spellings
+            # a boolean against a number or against text is "textual
+            # otherwise": compare spellings
             if kind == "bool":
                 return _agree([t == term for t in _texts(kind, val)],
                               "boolean spelling")
+            if kind in ("int", "float"):
+                return str(val) == term
             return val == term
         if kind == tkind and kind in ("int", "float"):
             return val == tval
